@@ -309,7 +309,7 @@ Proof.
   assert (Hq : follow (nomatch [psym "="%bs]) mx s2).
   { destruct r as [|c2 [|x2 r2]]; cbn [sep_tail] in Er; [injection Er as <-; fhd Hh2 | discriminate |].
     apply obind_some in Er. destruct Er as (? & Er & _). pose proof (hd_sym _ _ _ _ Er) as Hh. fhd Hh. }
-  assert (Hx : exists i t0 t, x = Tok i t0 /\ SS p = (i, t) :: s2 /\ kmatch (kd t) (PClass CName) = true /\ i < lim mx).
+  assert (Hx : exists i t0 t, x = Tok i t0 /\ SS p = (i, t) :: s2 /\ kmatch (kd t) (PClass CName) = true /\ fence_ok mx i = true).
   { apply tokc_inv in Ex. destruct Ex as (i & t0 & t & -> & Hs & Hk). exists i, t0, t. repeat split; try assumption.
     match goal with HCn : ParserComplete2.CTX ts (Node tNameList _ _ _ _) mx |- _ =>
       pose proof HCn as HCn'; apply CTX_node in HCn'; ctx_split HCn' end. open_lst.
@@ -483,7 +483,7 @@ Proof.
   { open_node. destruct fs as [|l [|nl tl]]; try discriminate Hg; try (exfalso; gmatch Hg; fail).
     apply CTXL_cons in HC. destruct HC as [HCl HC].
     assert (Hl : exists i, l = Kw i /\ exists t, SS p = (i, t) :: SS (i + 1) /\ kmatch (kd t) (pkw "local"%bs) = true /\
-                 p <= i /\ i < len /\ i < lim mx /\
+                 p <= i /\ i < len /\ fence_ok mx i = true /\
                  ((tl = [PNone] /\ namelist nl (SS (i + 1)) = Some s') \/
                   (exists q el, tl = [q; el] /\ (s <~ namelist nl (SS (i + 1)) ;; s <~ sym "="%bs q s ;; g_explist n el s) = Some s'))).
     { destruct tl as [|x1 [|x2 [|? ?]]]; cbv beta iota in Hg; try discriminate Hg; try (exfalso; gmatch Hg; fail).
